@@ -1,10 +1,108 @@
 import SV.Driver.Util
-/- svdriver_c10: line protocol for the C10 model (stub until the model is built). -/
+import SV.Model.Refcount
+/-
+svdriver_c10: line protocol for the C10 model (refcounted TTL / LRU caches).
+  t.new                    -> ok                      fresh TTLCache
+  t.add <k> <v>            -> v=<val> tok=<n> added=<0|1> len=<n> fired=<vals|->
+  t.get <k>                -> v=<val> tok=<n> ok=1 len=<n> fired=- | miss len=<n> fired=-
+  t.remove <k>             -> unit len=<n> fired=<vals|->
+  t.expire <k>             -> unit len=<n> fired=<vals|->     (timer path: lock + evictLocked)
+  t.done <tok> <0|1>       -> unit len=<n> fired=<vals|->     (badtok if no such closure)
+  l.new <cap>              -> ok                      fresh LRUCache
+  l.add / l.get / l.remove / l.done <tok>             same shapes
+`fired` = sorted payloads of the values whose OnEvicted ran during the operation (a value that
+fired twice is listed twice); `len` = number of cached entries after the operation.
+-/
 namespace SV.Driver.C10
+open SV.Driver SV.Refcount
 
-def step (s : Unit) : List String → Unit × String
-  | _ => (s, "bad-op")
+inductive St where
+  | none
+  | ttl (s : TTL)
+  | lru (s : LRU)
+
+def insertNat (x : Nat) : List Nat → List Nat
+  | [] => [x]
+  | y :: ys => if x ≤ y then x :: y :: ys else y :: insertNat x ys
+
+/-- Payloads whose callback counter grew between two states, with multiplicity, sorted. -/
+def firedBetween (before after : List RC) : List Nat :=
+  let rec go : List RC → List RC → List Nat → List Nat
+    | _, [], acc => acc
+    | [], a :: as, acc => go [] as (List.replicate a.calls a.val ++ acc)
+    | b :: bs, a :: as, acc => go bs as (List.replicate (a.calls - b.calls) a.val ++ acc)
+  (go before after []).foldr insertNat []
+
+def showFired (l : List Nat) : String :=
+  if l.isEmpty then "-" else ",".intercalate (l.map toString)
+
+def ttlLen (s : TTL) : Nat :=
+  let rec go : Nat → List RC → Nat
+    | _, [] => 0
+    | id, r :: rs => (if s.m r.key == some id then 1 else 0) + go (id + 1) rs
+  go 0 s.core.rcs
+
+def b01 (b : Bool) : String := if b then "1" else "0"
+
+def showRes (isAdd : Bool) (r : Res) (len : Nat) (fired : List Nat) : String :=
+  let tail := s!" len={len} fired={showFired fired}"
+  match r with
+  | .got v tok flag => s!"v={v} tok={tok} " ++ (if isAdd then "added=" else "ok=") ++ b01 flag ++ tail
+  | .miss => "miss" ++ tail
+  | .unit => "unit" ++ tail
+  | .badTok => "badtok" ++ tail
+
+def parseBool? : String → Option Bool
+  | "0" => some false
+  | "1" => some true
+  | _ => none
+
+def parseTOp? : List String → Option TOp
+  | ["t.add", k, v] => do some (.add (← parseNat? k) (← parseNat? v))
+  | ["t.get", k] => do some (.get (← parseNat? k))
+  | ["t.remove", k] => do some (.remove (← parseNat? k))
+  | ["t.expire", k] => do some (.expire (← parseNat? k))
+  | ["t.done", t, e] => do some (.done (← parseNat? t) (← parseBool? e))
+  | _ => none
+
+def parseLOp? : List String → Option LOp
+  | ["l.add", k, v] => do some (.add (← parseNat? k) (← parseNat? v))
+  | ["l.get", k] => do some (.get (← parseNat? k))
+  | ["l.remove", k] => do some (.remove (← parseNat? k))
+  | ["l.done", t] => do some (.done (← parseNat? t))
+  | _ => none
+
+def isAddT : TOp → Bool
+  | .add .. => true
+  | _ => false
+
+def isAddL : LOp → Bool
+  | .add .. => true
+  | _ => false
+
+def step (st : St) (ws : List String) : St × String :=
+  match ws with
+  | ["t.new"] => (.ttl {}, "ok")
+  | ["l.new", c] =>
+    match parseNat? c with
+    | some c => (.lru { cap := c }, "ok")
+    | none => (st, "bad-op")
+  | _ =>
+    match st with
+    | .none => (st, "bad-op")
+    | .ttl s =>
+      match parseTOp? ws with
+      | none => (st, "bad-op")
+      | some op =>
+        let (s', r) := s.step op
+        (.ttl s', showRes (isAddT op) r (ttlLen s') (firedBetween s.core.rcs s'.core.rcs))
+    | .lru s =>
+      match parseLOp? ws with
+      | none => (st, "bad-op")
+      | some op =>
+        let (s', r) := s.step op
+        (.lru s', showRes (isAddL op) r s'.order.length (firedBetween s.core.rcs s'.core.rcs))
 
 end SV.Driver.C10
 
-def main : IO Unit := SV.Driver.loop SV.Driver.C10.step ()
+def main : IO Unit := SV.Driver.loop SV.Driver.C10.step .none
